@@ -8,10 +8,11 @@
   makes the key set prefix-free; go-libdht panics on anything else).
 
   Still open at full strength (monitored by the correspondence + the brute-force predicates of the
-  `C18v` driver on every run, exhaustively for short keys):  allocate_exact, coalesce_spec, gaps_spec,
+  `C18v` driver on every run, exhaustively for short keys):  coalesce_spec, gaps_spec,
   nextLeaf_cyclic_successor, covered_iff, allEntries_sorted.
 -/
 import KadDHT.Proofs.Keyspace
+import KadDHT.Proofs.Alloc
 namespace KadDHT.C18
 open KadDHT Trie
 variable {α β : Type}
@@ -95,11 +96,76 @@ theorem assign_exactly_one (size : Nat) (hs : 1 ≤ size) (order path : Key) (t 
   intro q hq hqh
   exact (assignKey_unique ps h q hq hqh (regionsAt_pairwise size order path t)).symm
 
+/-- AllocateToKClosest never looks at the data stored with an item or a destination: its result on any two tries is
+    the projection of its result on the same tries with every leaf's data paired with its key, and so is its result on
+    the two tries with the data *replaced* by the key — which is the one `allocate_exact` speaks about.  Position by
+    position, the real result's `(peer, batch)` and the key-level result's `(peer key, batch keys)` are the two
+    projections of one `((peer key, peer), [(item key, item), …])`. -/
+theorem allocate_data_independent (items : Trie α) (dests : Trie β) (k : Nat) :
+    allocate items dests k = (allocate (label items) (label dests) k).map (fun p => (p.1.2, p.2.map (·.2))) ∧
+    allocate (keyed items) (keyed dests) k =
+      (allocate (label items) (label dests) k).map (fun p => (p.1.1, p.2.map (·.1))) := by
+  refine ⟨?_, allocate_mapv (fun p : Key × β => p.1) (fun p : Key × α => p.1) (label items) (label dests) k⟩
+  have := allocate_mapv (fun p : Key × β => p.2) (fun p : Key × α => p.2) (label items) (label dests) k
+  rw [mapv_snd_label, mapv_snd_label] at this
+  exact this
+
+/-- AllocateToKClosest is exact: every key of the items trie is handed to exactly min(k, number of destinations)
+    distinct destinations, and every destination it is handed to is strictly XOR-nearer to the key than every
+    destination it is not handed to.  (Keys of one length `n`, as Kademlia identifiers are; both tries well formed.) -/
+theorem allocate_exact (items : Trie α) (dests : Trie β) (k n : Nat) (hwi : WF [] items) (hwd : WF [] dests)
+    (hli : ∀ x ∈ keysL items, x.length = n) (hld : ∀ d ∈ keysL dests, d.length = n) (x : Key) (hx : x ∈ keysL items) :
+    let A := asg (allocate (keyed items) (keyed dests) k) x
+    A.Nodup ∧ A.length = min k dests.size ∧ (∀ a ∈ A, a ∈ keysL dests) ∧
+      ∀ a ∈ A, ∀ d ∈ keysL dests, d ∉ A → closer x a d = true := by
+  intro A
+  show A.Nodup ∧ A.length = min k dests.size ∧ (∀ a ∈ A, a ∈ keysL dests) ∧
+      ∀ a ∈ A, ∀ d ∈ keysL dests, d ∉ A → closer x a d = true
+  generalize hA' : A = A'
+  have hA : A' = asg (allocate (keyed items) (keyed dests) k) x := hA'.symm
+  clear hA'
+  unfold allocate at hA
+  split at hA
+  · rename_i hc
+    subst hA
+    simp only [Bool.or_eq_true, beq_iff_eq] at hc
+    refine ⟨by simp [asg], ?_, by simp [asg], by simp [asg]⟩
+    rcases hc with (hc | hc) | hc
+    · have h0 : (keyed dests).size = 0 := by rw [(isEmptyLeaf_iff _).1 hc]; rfl
+      rw [size_keyed] at h0
+      simp [asg, h0]
+    · have : keysL (keyed items) = [] := by rw [(isEmptyLeaf_iff _).1 hc]; rfl
+      rw [keysL_keyed] at this
+      rw [this] at hx; cases hx
+    · subst hc; simp [asg]
+  · have h := good_all (keyed dests) k 0 (keyed items) [] [] n (keyed_SK dests) (keyed_SK items)
+      ((WF_keyed [] dests).2 hwd) ((WF_keyed [] items).2 hwi) rfl rfl
+      (by rw [keysL_keyed]; exact hld) (by rw [keysL_keyed]; exact hli) x (by rw [keysL_keyed]; exact hx)
+    rw [← hA, keysL_keyed] at h
+    exact ⟨h.nodup, by rw [h.len, keysL_length], h.sub, h.near⟩
+
+/-- the same at every depth of the recursion, for items below `pi` and destinations below `pd` (this is the statement
+    the F18 defect violated from outside: handing a subtrie that hangs at depth `pd.length` to a walk that starts at
+    depth 0 is outside its hypotheses, and the allocation was then not nearest) -/
+theorem allocAt_exact (items dests : Trie Key) (k depth n : Nat) (pi pd : Key) (hsd : SK dests) (hsi : SK items)
+    (hwd : WF pd dests) (hwi : WF pi items) (hpi : pi.length = depth) (hpd : pd.length = depth)
+    (hld : ∀ d ∈ keysL dests, d.length = n) (hli : ∀ x ∈ keysL items, x.length = n) (x : Key) (hx : x ∈ keysL items) :
+    TopK x k (keysL dests) (asg (allocAt dests k depth items) x) :=
+  good_all dests k depth items pi pd n hsd hsi hwd hwi hpi hpd hld hli x hx
+
 /-! non-vacuity: a concrete well-formed trie with leaves at two depths meets the hypotheses -/
 def exT : Trie Nat := node (node (leaf [false, false] 1) (leaf [false, true, true] 2)) (leaf [true] 3)
 example : WF [] exT := by simp [exT, WF, isPre]
 example : exT.findPrefixOfKey [false, true, true, false] = some [false, true, true] := by decide
 example : (exT.prune [false]).keys = [[true]] := by decide
 example : (regionsAt 1 [] [] exT).map (·.1) = [[false, false], [false, true], [true]] := by decide
+
+/-! non-vacuity of `allocate_exact`: four 3-bit destinations, two items, k = 2 -/
+def exD : Trie Nat := node (node (leaf [false, false, true] 1) (leaf [false, true, false] 2))
+  (node (leaf [true, false, false] 3) (leaf [true, true, true] 4))
+def exI : Trie Nat := node (leaf [false, true, true] 10) (leaf [true, true, false] 11)
+example : WF [] exD ∧ WF [] exI := by simp [exD, exI, WF, isPre]
+example : asg (allocate (keyed exI) (keyed exD) 2) [false, true, true] = [[false, false, true], [false, true, false]] := by decide
+example : allocate exI exD 2 = [(1, [10]), (2, [10]), (3, [11]), (4, [11])] := by decide
 
 end KadDHT.C18
